@@ -16,6 +16,10 @@
    [fix] is the repair flag (DESIGN §2.5): fix = false is the pinned code; fix = true assigns
    seq.next / seq.leased only after a successful commit.
 
+   The lock itself is made explicit at the end of the file (xstep): next to the calls above, which
+   hold seq.lock from Call to Ret, a Release that locks only around its field accesses is modelled
+   as separate steps, to show what the lock across the release transaction is needed for.
+
    Ghost state (does not influence results): st_hist (every number returned, with key and
    object), o_poison (the object's last updateLease failed at commit and left next/leased set —
    only when fix = false), st_misuse (a call was made on a poisoned object), st_wrapped (a lease
@@ -221,3 +225,93 @@ Definition nums_of_key (s : state) (k : N) : list N :=
   rev (map snd (filter (fun e => fst (fst e) =? k) (st_hist s))).
 Definition nums_of_obj (s : state) (i : N) : list N :=
   rev (map snd (filter (fun e => snd (fst e) =? i) (st_hist s))).
+
+(* ==== seq.lock made explicit: Release with and without the lock across its transaction ====
+
+   In [step] the mutex is the program counter: while o_pc <> Idle (between RelCall and Ret, or
+   between NextCall and Ret of a lease update) every other call on the object is not enabled
+   (RInvalid) — that is Sequence.Release / Sequence.Next holding seq.lock with `defer Unlock`,
+   across db.Update.  The labels below model the SPLIT Release — the lock taken only around the
+   accesses to the object's fields:
+
+     SRelSnap o   : lock; (next0, leased0) := (seq.next, seq.leased); unlock
+     SRelCall o   : the db.Update closure on the snapshot values: num := stored; the transaction's
+                    snapshot is fixed here; writes next0 iff num = leased0
+     SRelRet o b  : txn.Commit (same [commit] as everywhere else)
+     SRelSet o    : lock; seq.leased = seq.next; unlock
+
+   Between these steps the object's lock is free, so [L (NextCall o)] is enabled.  The steps that
+   take the lock are enabled only while no locked call of the object is in flight (o_pc = Idle).
+   xexec on [map L ls] is exec on ls (SequenceProofs.xexec_L): the theorems about exec are the
+   theorems about this machine restricted to the locked Release. *)
+Inductive srel :=
+| SSnapped (next0 leased0 : N)
+| SInTxn (next0 snap : N) (w : bool)
+| SCommitted.
+
+Record xstate := mkX { x_s : state; x_rel : N -> option srel }.
+Definition xinit : xstate := mkX init (fun _ => None).
+
+Inductive xlabel :=
+| L (l : label)
+| SRelSnap (o : N)
+| SRelCall (o : N)
+| SRelRet (o : N) (blocked : bool)
+| SRelSet (o : N).
+
+Definition xstep (fx : bool) (x : xstate) (l : xlabel) : xstate * result :=
+  let s := x_s x in
+  match l with
+  | L Restart => (mkX (restart s) (fun _ => None), ROk)
+  | L l0 => let '(s1, r) := step fx s l0 in (mkX s1 (x_rel x), r)
+  | SRelSnap i =>
+      match st_objs s i, x_rel x i with
+      | Some o, None =>
+          match o_pc o with
+          | Idle => (mkX (note_misuse s o) (updN (x_rel x) i (Some (SSnapped (o_next o) (o_leased o)))), RPending)
+          | _ => (x, RInvalid)
+          end
+      | _, _ => (x, RInvalid)
+      end
+  | SRelCall i =>
+      match st_objs s i, x_rel x i with
+      | Some o, Some (SSnapped next0 leased0) =>
+          let ks := st_store s (o_key o) in
+          match stored ks with
+          | None => (mkX s (updN (x_rel x) i None), RErrNotFound)
+          | Some num => (mkX s (updN (x_rel x) i (Some (SInTxn next0 (wver ks) (num =? leased0)))), RPending)
+          end
+      | _, _ => (x, RInvalid)
+      end
+  | SRelRet i blocked =>
+      match st_objs s i, x_rel x i with
+      | Some o, Some (SInTxn next0 snap w) =>
+          if w then
+            let '(s1, c) := commit s (o_key o) snap next0 blocked in
+            match c with
+            | CDone => (mkX s1 (updN (x_rel x) i (Some SCommitted)), RPending)
+            | _ => (mkX s1 (updN (x_rel x) i None), err_of c)
+            end
+          else (mkX s (updN (x_rel x) i (Some SCommitted)), RPending)
+      | _, _ => (x, RInvalid)
+      end
+  | SRelSet i =>
+      match st_objs s i, x_rel x i with
+      | Some o, Some SCommitted =>
+          match o_pc o with
+          | Idle => (mkX (set_obj s i (mkObj (o_key o) (o_next o) (o_next o) (o_bw o) Idle (o_poison o)))
+                         (updN (x_rel x) i None), ROk)
+          | _ => (x, RInvalid)
+          end
+      | _, _ => (x, RInvalid)
+      end
+  end.
+
+Fixpoint xexec (fx : bool) (x : xstate) (ls : list xlabel) : xstate * list result :=
+  match ls with
+  | [] => (x, [])
+  | l :: r => let '(x1, y) := xstep fx x l in let '(x2, ys) := xexec fx x1 r in (x2, y :: ys)
+  end.
+
+(* an interleaving that never unlocks inside Release *)
+Definition locked_only (ls : list xlabel) : Prop := exists ls0, ls = map L ls0.
